@@ -15,7 +15,9 @@ void vp_c02_pick(char *out, char *tab, uint32_t stride, uint32_t n, uint32_t idx
      block are if-then-else terms over constants. The rows are 8-bit literals of the translated harness, i.e. they take part in the
      driver's offline injectivity check of the id hash (report.json literals16), which is what `exact` asserts. */
   for (uint32_t k = 0; k < n; k++) { if (k == idx) { uint32_t l = 0; for (; l < stride; l++) { uint8_t c = ((uint8_t*)tab)[k * stride + l]; if (!c) break; q->data[l] = c; }
-      d->f1 = l; q->lit = 1; q->exact = 1; q->sid = l <= 3 ? SID_PACK(q->data, l) : vpl_hash16(q->data, l); } }
+      d->f1 = l; q->sid = l <= 3 ? SID_PACK(q->data, l) : vpl_hash16(q->data, l); } }
+  REF(d) = (uint32_t)-1;   /* immortal, see c02_dom.c (4) */
+  q->lit = 1; q->exact = 1;   /* unconditional: the flags must stay constants for symex */
   *(QAD**)out = d; }
 /* kind 0: free text (0..3 arbitrary units), 1: abstract number, 2: row of the table (only if n > 0).
    Every value block carries a valid content id: <= 3 units pack injectively (SID_PACK), table rows are literals of the harness (offline
@@ -25,7 +27,7 @@ void vp_c02_value(char *out, char *tab, uint32_t stride, uint32_t n) {
   uint16_t c0 = vp_u16(), c1 = vp_u16(), c2 = vp_u16();
   ASSUME(kind < (n > 0 ? 3 : 2)); ASSUME(len <= 3); ASSERT(stride <= QS_CAP && n <= 40, "C02 env: value table too large");
   uint32_t hint = n > 0 && stride > 3 ? stride : 3;
-  QAD *d = qs_new(len, hint); struct qs *q = (struct qs*)d;
+  QAD *d = qs_new(len, hint); struct qs *q = (struct qs*)d; REF(d) = (uint32_t)-1;
   q->data[0] = c0; q->data[1] = c1; q->data[2] = c2; q->lit = 0; q->exact = 1; q->sid = SID_PACK(q->data, len);
   if (kind == 1) { d->f1 = 1; q->data[0] = '#'; q->isnum = 1; q->neg = neg && mag != 0; q->mag = mag; }
   if (kind == 2) { ASSUME(idx < n);
@@ -33,6 +35,7 @@ void vp_c02_value(char *out, char *tab, uint32_t stride, uint32_t n) {
         d->f1 = l; q->lit = 1; q->sid = l <= 3 ? SID_PACK(q->data, l) : vpl_hash16(q->data, l); } } }
   *(QAD**)out = d; }
 /* fresh element; `ns` is the namespace IN EFFECT (the harness resolves inheritance, so the pointer never becomes a choice) */
+void vp_c02_init(void) { c02_nonode_init(); }
 void vp_c02_new(char *out, char *tag, char *ns, char *text) { struct dnode *n = dn_new(); n->tag = qad_ref(*(QAD**)tag); n->ns = qad_ref(*(QAD**)ns); n->text = qad_ref(*(QAD**)text); DN(out) = n; }
 void vp_c02_append(char *parent, char *child) { dn_append(DN(parent), DN(child)); }
 /* attribute with a concrete name: the slot is reserved unconditionally, presence is symbolic */
@@ -41,7 +44,7 @@ void vp_c02_attr(char *el, char *name, char *val, uint8_t present) { struct dnod
 void vp_c02_reserve_attr(char *name) { vpl_attr_slot(*(QAD**)name, 1); }
 uint32_t vp_c02_nattr(char *el) { return DN(el)->nattr; }
 /* keep only the first n children (C11 idiom) */
-void vp_dom_truncate(char *el, uint32_t n) { struct dnode *d = DN(el); ASSUME(n <= d->nch); for (uint32_t i = d->nch; i < DOM_MAXCH; i++) d->ch[i] = 0; d->nch = n; }
+void vp_dom_truncate(char *el, uint32_t n) { struct dnode *d = DN(el); ASSUME(n <= d->nch); for (uint32_t i = d->nch; i < DOM_MAXCH; i++) d->ch[i] = &c02_nonode; d->nch = n; }
 /* has the writer produced a document element at all? (QXmppStanza::Error::toXml of an empty error writes nothing) */
 uint8_t vp_c02_writer_has_root(char *w) { return WR(w)->root != 0; }
 /* same multiset of children? tree equality modulo sibling order is not needed so far (the model keeps order, which is stricter) */
